@@ -388,6 +388,6 @@ PROPS['C07'] = {
 
 NOT_APPLICABLE = {
     'C16': 'every clause is an identity between compositions of sin/cos/atan2/asin/sqrt/tan/ln in f64 (or calls into geographiclib-rs); Verus leaves float arithmetic uninterpreted and CBMC models libm as nondeterministic, so no contract stronger than "returns an f64" is provable',
-    'C09': 'no contract within reach decides it: Verus cannot take compute_rdp / visvalingam (iterator adaptor chains, BinaryHeap, R-tree, closures without specs); Kani/CBMC does not finish symbolic execution of simplify on a 3-vertex line string even with a concrete tolerance (measured: > 900 s; the sqrt inside the distance kernel makes every distance symbolic and the recursion then runs over slices of symbolic length). The attempted contract is kept in contracts/kani/geo/c09_rdp.rs',
+    'C09': 'no contract within reach decides it: Verus cannot take compute_rdp / visvalingam (chains of provided iterator adaptors - enumerate, take, skip, map - to which Verus cannot attach specifications; BinaryHeap; R-tree); Kani/CBMC does not finish symbolic execution of simplify on a 3-vertex line string even with a concrete tolerance (measured: > 900 s; the sqrt inside the distance kernel makes every distance symbolic and the recursion then runs over slices of symbolic length). The attempted contract is kept in contracts/kani/geo/c09_rdp.rs',
     'C20': '2-safety hyper-property over runs, thread-pool sizes and hash seeds; Kani has no threads and compiles RandomState/rayon away, Verus cannot parse the rayon/hashbrown code; no contract within reach can express it',
 }
